@@ -60,9 +60,10 @@ func ValidateNetworkIdentifier(chain string) sdk.Error {
 	if len(h) == 0 {
 		return ErrInvalidNetworkIdentifier(ModuleName, fmt.Errorf("net id is empty"))
 	}
-	// ensure length
-	if len(h) > NetworkIdentifierLength {
-		return ErrInvalidNetworkIdentifier(ModuleName, fmt.Errorf("net id length is > %d", NetworkIdentifierLength))
+	// ensure length: the per-chain index key is the identifier followed by the address, with no
+	// separator, so a shorter identifier is a prefix of other chains' keys
+	if len(h) != NetworkIdentifierLength {
+		return ErrInvalidNetworkIdentifier(ModuleName, fmt.Errorf("net id length is not %d", NetworkIdentifierLength))
 	}
 	return nil
 }
